@@ -32,7 +32,13 @@ MANIFEST = dict(
     'change no value (C01.share_invariant, C01.side_by_side, DAG homomorphisms); where the pure-Python evaluator returns a number it is the '
     'mathematical value (C01.pyEval_agrees, relational proof covering its short-circuit And/Or and 0**c special case). Tie: differential correspondence on generated DAGs: the '
     'REAL signature and REAL vectors recorded at the calculator boundary are loaded and run by the model; real engine values, real '
-    'get_value() and BIOGEME.simulate are compared with the model semantics and with an independent math oracle.',
+    'get_value() and BIOGEME.simulate are compared with the model semantics and with an independent math oracle. The numbering is a '
+    'state (Model/IdState.lean: which IdManager every node holds; set_id_manager, prepare, the prepare_ids=True bracket, create_function): '
+    'evaluating a part of numbered formulas on its own puts every reference back (C01.alone_restores), hence changes no later value or '
+    'signature (C01.alone_neutral, C01.alone_many_neutral - the evaluations the audit of a logit performs by itself), and a formula whose '
+    'nodes hold one manager takes the proved engine path (C01.context_value); sequences persist -> evaluate a part alone -> evaluate again '
+    '(IdManager+set_id_manager, create_function, BIOGEME.simulate) are run on the real code, every number against the oracle, every '
+    'signature written along the way against the state model.',
     design='DESIGN.md §5 C01',
     technique='Lean 4 compiler-correctness proof over an executable DAG/engine model + differential correspondence with the real engine and Python evaluator',
     note='Partial: the C++ engine (cythonbiogeme) arithmetic is modelled from its source, not verified; Float vs real rounding by tolerance 1e-9; '
@@ -48,7 +54,11 @@ ASSUMPTIONS = ['regular domain: log/power arguments > 0, denominators away from 
 RULE = (
     'typed DAGs (rejection-sampled into the regular domain against an independent oracle) over all 34 operator kinds, 1-4 parameters '
     '(free and fixed, appearance order != alphabetical), 1-4 rows, sharing probability 0.3, plus one stream forcing every kind at the root; '
-    'non-trivial = depth >= 2 with >= 1 free parameter and >= 1 data variable'
+    'widened shapes: set members drawn from the values the argument takes and their neighbours (non-integers), truth values that are negative / '
+    'not one (conditions, availabilities), constants needing all their digits; formulas without data variables (both evaluators, with and '
+    'without a database); sum over the rows; sequences of numbering operations (1-3 formulas numbered side by side, 1-3 parts evaluated alone, '
+    'formulas evaluated again; a formula outside the numbering evaluated in between); '
+    'non-trivial = depth >= 2 with >= 1 free parameter and >= 1 data variable; a sequence is non-trivial with >= 1 part evaluated alone and >= 1 parameter'
 )
 TOL = 1e-9
 EXTRA_MODULES = ['Driver.Expr']
@@ -582,7 +592,10 @@ def devar(rng, case):
 def gen_py_case(rng):
     """a formula without data variables over the operators get_value() implements, with general truth values"""
     for _ in range(50):
-        case = G.gen_case(rng, n_ops=rng.randint(1, 7), kinds=PY_KINDS, n_rows=1)
+        kinds = PY_KINDS
+        if rng.random() < 0.5:     # the operators that read a number as a truth value / a key, nested in plain arithmetic
+            kinds = [rng.choice(['condSum', 'condSum', 'logLogit', 'logLogit', 'and', 'or', 'elem', 'logzero', 'powConst'])] * 3 + ['plus', 'times', 'minus', 'neg', 'max']
+        case = G.gen_case(rng, n_ops=rng.randint(1, 7), kinds=kinds, n_rows=1)
         if rng.random() < 0.8:
             case = widen_truth(rng, case)
         out = devar(rng, case)
@@ -1114,6 +1127,16 @@ CORPUS = [
                {'k': 'times', 'c': [0, 3]}, {'k': 'times', 'c': [1, 4]}, {'k': 'plus', 'c': [5, 6]}, {'k': 'times', 'c': [7, 2]},
                {'k': 'minus', 'c': [8, 7]}],
      'roots': [9], 'columns': ['x2', 'x1'], 'rows': [[1.0, 2.0], [0.5, -1.0]], 'dict': {'b10': 3.0, 'a': 100.0}},
+    # members that are not integers: hit (0.5, 2.5), their truncations (0, 2) are not members
+    {'nodes': [{'k': 'var', 'name': 'x1'}, {'k': 'belongsTo', 'c': [0], 'members': [-1.5, 0.5, 2.5]}, {'k': 'num', 'v': 10.0, 'raw': True},
+               {'k': 'times', 'c': [2, 1]}],
+     'roots': [3], 'columns': ['x1'], 'rows': [[0.5], [2.0], [0.0], [2.5], [-1.0], [-1.5]], 'dict': {}},
+    # no data variable (both evaluators, with and without a database): conditions that are negative / not one
+    {'nodes': [{'k': 'beta', 'name': 'b1', 'v': 0.5, 'fixed': False}, {'k': 'beta', 'name': 'b2', 'v': 2.0, 'fixed': False},
+               {'k': 'beta', 'name': 'k', 'v': -3.0, 'fixed': True}, {'k': 'minus', 'c': [0, 1]}, {'k': 'times', 'c': [1, 1]},
+               {'k': 'minus', 'c': [1, 0]}, {'k': 'num', 'v': 0.5, 'raw': True}, {'k': 'minus', 'c': [0, 6]}, {'k': 'num', 'v': 1000.0, 'raw': True},
+               {'k': 'exp', 'c': [1]}, {'k': 'condSum', 'c': [3, 4, 5, 0, 7, 8, 2, 9]}],
+     'roots': [10], 'columns': ['x1'], 'rows': [[1.0]], 'dict': {}},
 ]
 
 
@@ -1218,8 +1241,8 @@ def in_process_streams(ctx, res, rng):
         if len(res.violations) > 20:
             break
     focus_stream(ctx, res, rng, ctx.n(12, 120))
-    py_stream(ctx, res, rng, ctx.n(150, 2000))
     seq_stream(ctx, res, rng, ctx.n(60, 800))
+    py_stream(ctx, res, rng, ctx.n(150, 2000))
     for _ in range(ctx.n(6, 80)):
         simulate_check(ctx, res, rng)
 
